@@ -361,6 +361,60 @@ def index_mutation_cases(only=None):
 N_INDEX_CASES = 20
 
 
+# operations whose *argument objects* are mutable (a list or an array giving axes, shifts, repeats, a shape, a condition):
+# the caller changes the object between the forward pass and backward(); backward must differentiate what was evaluated
+ARG_MUT_CASES = [
+    ("moveaxis", (2, 3, 4), lambda: [[0], [2]], lambda x, m: mg.moveaxis(x, m[0], m[1]), lambda m: m[1].__setitem__(0, 1)),
+    ("roll-shift", (2, 3, 4), lambda: [[1, 2], [0, 2]], lambda x, m: mg.roll(x, m[0], m[1]), lambda m: m[0].__setitem__(0, 0)),
+    ("roll-axis", (2, 3, 4), lambda: [[1, 2], [0, 2]], lambda x, m: mg.roll(x, m[0], m[1]), lambda m: m[1].__setitem__(0, 1)),
+    ("transpose", (2, 3, 4), lambda: [[2, 0, 1]], lambda x, m: mg.transpose(x, m[0]), lambda m: m[0].__setitem__(slice(None), [0, 1, 2])),
+    ("reshape", (2, 3, 4), lambda: [[6, 4]], lambda x, m: mg.reshape(x, m[0]), lambda m: m[0].__setitem__(slice(None), [4, 6])),
+    ("repeat-list", (2, 3, 4), lambda: [[1, 2]], lambda x, m: mg.repeat(x, m[0], axis=0), lambda m: m[0].__setitem__(0, 2)),
+    ("repeat-array", (2, 3, 4), lambda: [np.array([1, 2])], lambda x, m: mg.repeat(x, m[0], axis=0), lambda m: m[0].__setitem__(0, 2)),
+    ("broadcast_to", (2, 3, 4), lambda: [[2, 2, 3, 4]], lambda x, m: mg.broadcast_to(x, m[0]), lambda m: m[0].__setitem__(0, 3)),
+    ("einsum-sublists", (2, 3, 4), lambda: [[0, 1, 2], [2, 0]], lambda x, m: mg.einsum(x, m[0], m[1]), lambda m: m[1].__setitem__(slice(None), [0, 2])),
+    ("where-condition-array", (2, 3, 4), lambda: [np.arange(24).reshape(2, 3, 4) % 2 == 0], lambda x, m: mg.where(m[0], x, 0.0),
+     lambda m: m[0].__setitem__(Ellipsis, True)),
+    ("where-condition-list", (4,), lambda: [[True, False, True, False]], lambda x, m: mg.where(m[0], x, 0.0),
+     lambda m: m[0].__setitem__(slice(None), [False] * 4)),
+]
+
+
+def argument_mutation_cases(only=None):
+    """-> [(name, message)]"""
+    out = []
+    for name, shape, mk, f, mutate in ARG_MUT_CASES:
+        if only is not None and name != only:
+            continue
+        gs = []
+        for mut in (False, True):
+            x = mg.tensor(np.arange(float(np.prod(shape))).reshape(shape) + 1)
+            m = mk()
+            try:
+                y = f(x, m)
+                L = (y * np.arange(float(y.size)).reshape(y.shape)).sum()
+            except Exception as e:  # noqa: BLE001
+                out.append((name, f"the forward pass raised {type(e).__name__}"))
+                gs = None
+                break
+            if mut:
+                try:
+                    mutate(m)
+                except Exception:  # noqa: BLE001  (a refused write is fine: the object then cannot change)
+                    pass
+            try:
+                L.backward()
+                gs.append(np.array(x.grad))
+            except Exception as e:  # noqa: BLE001
+                gs.append(f"backward raised {type(e).__name__}: {str(e)[:80]}")
+        if gs is None:
+            continue
+        if isinstance(gs[0], str) or isinstance(gs[1], str) or not np.array_equal(gs[0], gs[1]):
+            out.append((name, "changing the argument object after the forward pass changed what backward() computed: "
+                        f"{gs[0] if isinstance(gs[0], str) else gs[0].tolist()} -> {gs[1] if isinstance(gs[1], str) else gs[1].tolist()}"))
+    return out
+
+
 # ------------------------------------------------------------------ run
 
 
@@ -395,6 +449,11 @@ def run(ctx: Ctx) -> Outcome:
     out.stats["vars_only_ops"] = ophist
     for name, msg in index_mutation_cases():
         out.violations.append(Violation(f"C05|index-changed-after-forward|{name}", f"{name}: {msg}", {"kind": "index", "name": name}))
+    for name, msg in argument_mutation_cases():
+        out.violations.append(Violation(f"C05|argument-object-changed-after-forward|{name}", f"{name}: {msg}", {"kind": "argmut", "name": name}))
+    out.evaluations += len(ARG_MUT_CASES)
+    for k in range(len(ARG_MUT_CASES)):
+        out.nontrivial.add(stable_hash(["argmut-case", k]))
     out.evaluations += N_INDEX_CASES
     for k in range(N_INDEX_CASES):
         out.nontrivial.add(stable_hash(["index-case", k]))
@@ -406,6 +465,10 @@ def run(ctx: Ctx) -> Outcome:
 
 def replay(data) -> bool:
     r = data["replay"]
+    if r.get("kind") == "argmut":
+        res = argument_mutation_cases(only=r["name"])
+        print(res)
+        return bool(res)
     if r.get("kind") == "index":
         res = index_mutation_cases(only=r["name"])
         print(res)
